@@ -245,7 +245,7 @@ harness(void)
 	__CPROVER_assume(in_pfx0 == V_PFX0);
 #endif
 #ifdef V_MAXB
-	__CPROVER_assume(in_blen0 <= V_MAXB && in_blen1 <= V_MAXB);
+	__CPROVER_assume(in_blen0 <= V_MAXB0 && in_blen1 <= V_MAXB);
 #endif
 	__CPROVER_assume(in_ntok >= 1 && in_ntok <= 2 && in_pfx0 <= 4 && in_pfx1 <= 4 && in_blen0 <= 7 && in_blen1 <= 7);
 #ifdef V_NTOK
